@@ -114,7 +114,14 @@ def edit(r, s):
 def gen_pair(seed, idx, tier):
     r = core.rng_for(seed, "U8", idx)
     m = r.random()
-    if m < 0.45:
+    if m < 0.06:
+        # the same block replaced by the same other block at two (or three) places around shared text: the pair of
+        # middle blocks reaches diff_bisect more than once within one diff
+        w1, w2 = r.sample([w for w in WORDS if len(w) >= 2] + ["1999", "2024", "aa", "cc", "red", "blue"], 2)
+        seps = [r.choice([" and ", "-", "b", " ", ", ", " or "]) for _ in range(r.randint(1, 2))]
+        a = w1 + "".join(sp + w1 for sp in seps)
+        b = w2 + "".join(sp + w2 for sp in seps)
+    elif m < 0.45:
         a = sentence(r, r.randint(0, 8))
         b = edit(r, a) if r.random() < 0.8 else sentence(r, r.randint(0, 8))
     elif m < 0.6:
